@@ -31,11 +31,24 @@ import (
 // on-disk state behind the oracle's back.
 type verifC21FS struct {
 	*veriffs.FS
+	// writes maps the mutation index of every completed Write to its length,
+	// muts lists the completed mutating calls in order (both are read from the
+	// crash-free planning run).
+	writes map[int]int
+	muts   []veriffs.Op
+}
+
+// note records a completed mutating call (m = Mutations before the call).
+func (c *verifC21FS) note(m int, name, path string) {
+	for c.FS.Mutations > m {
+		c.muts = append(c.muts, veriffs.Op{Name: name, Path: path})
+		m++
+	}
 }
 
 var errVerifC21Dead = errors.New("verif: filesystem call after the crash")
 
-func verifC21NewFS() *verifC21FS { return &verifC21FS{FS: veriffs.New()} }
+func verifC21NewFS() *verifC21FS { return &verifC21FS{FS: veriffs.New(), writes: map[int]int{}} }
 
 func (c *verifC21FS) dead() bool { return c.FS.CrashAt >= 0 && c.FS.Mutations > c.FS.CrashAt }
 
@@ -58,35 +71,52 @@ func (c *verifC21FS) OpenFile(name string, flag int, perm fs.FileMode) (billy.Fi
 	if c.dead() && flag&(os.O_CREATE|os.O_TRUNC) != 0 {
 		return nil, errVerifC21Dead
 	}
-	return c.wrap(c.FS.OpenFile(name, flag, perm))
+	m := c.FS.Mutations
+	f, err := c.FS.OpenFile(name, flag, perm)
+	c.note(m, "open", name)
+	return c.wrap(f, err)
 }
 
 func (c *verifC21FS) TempFile(dir, prefix string) (billy.File, error) {
 	if c.dead() {
 		return nil, errVerifC21Dead
 	}
-	return c.wrap(c.FS.TempFile(dir, prefix))
+	m := c.FS.Mutations
+	f, err := c.FS.TempFile(dir, prefix)
+	if err == nil {
+		c.note(m, "open", f.Name())
+	}
+	return c.wrap(f, err)
 }
 
 func (c *verifC21FS) Rename(from, to string) error {
 	if c.dead() {
 		return errVerifC21Dead
 	}
-	return c.FS.Rename(from, to)
+	m := c.FS.Mutations
+	err := c.FS.Rename(from, to)
+	c.note(m, "rename", to)
+	return err
 }
 
 func (c *verifC21FS) Remove(name string) error {
 	if c.dead() {
 		return errVerifC21Dead
 	}
-	return c.FS.Remove(name)
+	m := c.FS.Mutations
+	err := c.FS.Remove(name)
+	c.note(m, "remove", name)
+	return err
 }
 
 func (c *verifC21FS) MkdirAll(name string, perm fs.FileMode) error {
 	if c.dead() {
 		return errVerifC21Dead
 	}
-	return c.FS.MkdirAll(name, perm)
+	m := c.FS.Mutations
+	err := c.FS.MkdirAll(name, perm)
+	c.note(m, "mkdir", name)
+	return err
 }
 
 func (c *verifC21FS) Symlink(target, link string) error {
@@ -105,7 +135,13 @@ func (f *verifC21File) Write(p []byte) (int, error) {
 	if f.c.dead() {
 		return 0, errVerifC21Dead
 	}
-	return f.File.Write(p)
+	m := f.c.FS.Mutations
+	n, err := f.File.Write(p)
+	if f.c.FS.Mutations == m+1 {
+		f.c.writes[m] = len(p)
+	}
+	f.c.note(m, "write", f.File.Name())
+	return n, err
 }
 
 func (f *verifC21File) WriteAt(p []byte, off int64) (int, error) {
@@ -119,12 +155,95 @@ func (f *verifC21File) Truncate(size int64) error {
 	if f.c.dead() {
 		return errVerifC21Dead
 	}
-	return f.File.Truncate(size)
+	m := f.c.FS.Mutations
+	err := f.File.Truncate(size)
+	f.c.note(m, "truncate", f.File.Name())
+	return err
 }
 
-// verifC21Run arms the crash counter, runs op and reports whether the crash
-// fired. k is the 0-based index of the mutating call that never completes;
-// partial is the number of bytes of a crashing write that reach the file.
+// verifC21Crash picks the crash point. A crash-free planning run of op over a
+// filesystem built by build counts the mutating calls and records which of
+// them are writes (the code is deterministic, so the crashing run performs
+// the same calls up to the crash). The result is a second, identical
+// filesystem on which op has run until mutating call k (0-based) which did not
+// happen, except that a write left its first `partial` bytes (0 <= partial <
+// len; the first verifrt.Param("PL") cut points and the cut before the last
+// byte are tried). crashed=false: k is the number of mutating calls, op ran to
+// completion.
+func verifC21Crash(build func() *verifC21FS, op func(c *verifC21FS)) (c *verifC21FS, crashed bool, k, partial int) {
+	c, _, crashed, k, partial = verifC21CrashPlan(build, op)
+	return c, crashed, k, partial
+}
+
+// verifC21CrashPlan additionally returns the filesystem of the planning run:
+// the state after the complete operation, with the list of its mutating calls.
+func verifC21CrashPlan(build func() *verifC21FS, op func(c *verifC21FS)) (c, plan *verifC21FS, crashed bool, k, partial int) {
+	plan = build()
+	plan.FS.CrashAt = -1
+	plan.FS.Mutations = 0 // build may itself go through the counted calls
+	plan.muts = nil
+	plan.writes = map[int]int{}
+	op(plan)
+	total := plan.FS.Mutations
+
+	// Crash points: every mutating call, except that inside a run of
+	// consecutive writes to one file only the first and the last RUN writes
+	// of the run are tried when the parameter RUN is set (the idx encoder
+	// issues 256 four-byte writes for the fan-out table alone).
+	cands := make([]int, 0, total+1)
+	run := verifrt.Param("RUN")
+	sameRun := func(i, j int) bool {
+		return plan.muts[i].Name == "write" && plan.muts[j].Name == "write" && plan.muts[i].Path == plan.muts[j].Path
+	}
+	fromStart := make([]int, total) // position of mutation i inside its run of writes
+	toEnd := make([]int, total)     // writes of the run after mutation i
+	for i := 1; i < total; i++ {
+		if sameRun(i-1, i) {
+			fromStart[i] = fromStart[i-1] + 1
+		}
+	}
+	for i := total - 2; i >= 0; i-- {
+		if sameRun(i, i+1) {
+			toEnd[i] = toEnd[i+1] + 1
+		}
+	}
+	for i := 0; i <= total; i++ {
+		if run > 0 && i < total && fromStart[i] >= run && toEnd[i] >= run {
+			continue
+		}
+		cands = append(cands, i)
+	}
+	k = cands[verifrt.Range(0, len(cands)-1)]
+	if n, ok := plan.writes[k]; ok && n > 1 {
+		pl := verifrt.Param("PL")
+		if n-1 <= pl {
+			partial = verifrt.Range(0, n-1)
+		} else if i := verifrt.Range(0, pl); i == pl {
+			partial = n - 1
+		} else {
+			partial = i
+		}
+	}
+	c = build()
+	crashed = verifC21Run(c, k, partial, func() { op(c) })
+	verifrt.Assert(crashed == (k < total), "c21-harness-crash-point-hit")
+	return c, plan, crashed, k, partial
+}
+
+// Exported names for the harnesses of other packages.
+type VerifC21FS = verifC21FS
+
+func VerifC21NewFS() *VerifC21FS { return verifC21NewFS() }
+
+func VerifC21Survivor(c *VerifC21FS) *VerifC21FS { return verifC21Survivor(c) }
+
+func VerifC21CrashPlan(build func() *VerifC21FS, op func(c *VerifC21FS)) (c, plan *VerifC21FS, crashed bool, k, partial int) {
+	return verifC21CrashPlan(build, op)
+}
+
+// Muts returns the mutating calls of a completed planning run.
+func (c *verifC21FS) Muts() []veriffs.Op { return c.muts }
+
 func verifC21Run(c *verifC21FS, k, partial int, op func()) (crashed bool) {
 	c.FS.Mutations = 0
 	c.FS.CrashAt = k
@@ -146,7 +265,7 @@ func verifC21Run(c *verifC21FS, k, partial int, op func()) (crashed bool) {
 // verifC21Survivor disarms the counter and returns the filesystem a process
 // started after the crash sees.
 func verifC21Survivor(c *verifC21FS) *verifC21FS {
-	s := &verifC21FS{FS: c.FS}
+	s := &verifC21FS{FS: c.FS, writes: map[int]int{}}
 	s.FS.CrashAt = -1
 	return s
 }
@@ -266,38 +385,32 @@ func verifC21CheckRefs(c *verifC21FS, allowed []plumbing.Hash, allowAbsent bool)
 func VerifHarness_C21_setref() {
 	st := verifrt.Range(0, 3)
 	cas := verifrt.Range(0, 1)
-	c, oldH, oldOK := verifC21RefRepo(st)
+	_, oldH, oldOK := verifC21RefRepo(st)
 	verifrt.Assume(cas == 0 || oldOK)
-	k := verifrt.Range(0, verifrt.Param("K"))
-	partial := verifrt.NondetInt()
-	verifrt.Assume(partial >= 0 && partial <= 41)
 
 	var old *plumbing.Reference
 	if cas == 1 {
 		old = plumbing.NewHashReference(verifC21RefA, oldH)
 	}
 	var err error
-	crashed := verifC21Run(c, k, partial, func() {
-		err = New(c).SetRef(plumbing.NewHashReference(verifC21RefA, verifC21HashN), old)
-	})
+	c, crashed, k, partial := verifC21Crash(
+		func() *verifC21FS { c, _, _ := verifC21RefRepo(st); return c },
+		func(c *verifC21FS) {
+			err = New(c).SetRef(plumbing.NewHashReference(verifC21RefA, verifC21HashN), old)
+		})
 	if !crashed {
-		// one representative of "the crash point lies beyond the operation"
-		verifrt.Assume(k == c.FS.Mutations)
 		verifrt.Reach("c21-setref-completed")
 		verifrt.Assert(err == nil, "c21-op-succeeds")
 		verifC21CheckRefs(c, []plumbing.Hash{verifC21HashN}, false)
 		return
 	}
-	op := verifC21CrashOp(c)
-	if op.Name != "write" {
-		verifrt.Assume(partial == 0)
-	}
 	verifrt.Reach("c21-setref-crashed")
-	// The loose file is rewritten in place: it is empty from the truncation
-	// (O_TRUNC on open, or Truncate(0) after the compare) until the write of
-	// the 41 content bytes, and holds a prefix of them if the write is torn.
-	// 40 bytes are the complete object id.
-	torn := op.Name == "write" && op.Path == "/refs/heads/a" && partial < 40
+	// The loose file is rewritten in place. Mutating call 0 creates or empties
+	// it (O_CREATE / O_TRUNC on open, or Truncate(0) after the compare); from
+	// then on it is empty until the write of the 41 content bytes, and holds a
+	// prefix of them if that write is torn (40 bytes are the complete id).
+	op := verifC21CrashOp(c)
+	torn := k >= 1 && !(op.Name == "write" && op.Path == "/refs/heads/a" && partial >= 40)
 	verifrt.Known("C21-setref-rewrites-loose-ref-in-place", torn)
 	allowed := []plumbing.Hash{verifC21HashN}
 	if oldOK {
@@ -310,29 +423,21 @@ func VerifHarness_C21_setref() {
 // call.
 func VerifHarness_C21_removeref() {
 	st := verifrt.Range(0, 3)
-	c, oldH, oldOK := verifC21RefRepo(st)
-	k := verifrt.Range(0, verifrt.Param("K"))
-	partial := verifrt.NondetInt()
-	verifrt.Assume(partial >= 0 && partial <= 64)
+	_, oldH, oldOK := verifC21RefRepo(st)
 
 	var err error
-	crashed := verifC21Run(c, k, partial, func() {
-		err = New(c).RemoveRef(verifC21RefA)
-	})
+	c, crashed, k, _ := verifC21Crash(
+		func() *verifC21FS { c, _, _ := verifC21RefRepo(st); return c },
+		func(c *verifC21FS) { err = New(c).RemoveRef(verifC21RefA) })
 	if !crashed {
-		verifrt.Assume(k == c.FS.Mutations)
 		verifrt.Reach("c21-removeref-completed")
 		verifrt.Assert(err == nil, "c21-op-succeeds")
 		verifC21CheckRefs(c, nil, true)
 		return
 	}
-	op := verifC21CrashOp(c)
-	if op.Name != "write" {
-		verifrt.Assume(partial == 0)
-	}
 	verifrt.Reach("c21-removeref-crashed")
-	// The loose file is removed first (mutation 0) and the packed line only
-	// afterwards: every crash in between exposes the stale packed value.
+	// The loose file is removed first (mutating call 0) and the packed line
+	// only afterwards: every crash in between exposes the stale packed value.
 	verifrt.Known("C21-removeref-loose-before-packed", st == verifC21LooseShadow && k >= 1)
 	var allowed []plumbing.Hash
 	if oldOK {
@@ -342,34 +447,31 @@ func VerifHarness_C21_removeref() {
 }
 
 // PackRefs with refs/heads/a in each start state (refs/heads/b is always
-// loose, refs/tags/t always packed), crashing at every mutating call.
+// loose, refs/tags/t packed or, without a packed-refs file, loose), crashing
+// at every mutating call.
 func VerifHarness_C21_packrefs() {
 	st := verifrt.Range(0, 3)
-	c, oldH, oldOK := verifC21RefRepo(st)
-	if verifrt.Range(0, 1) == 1 {
-		// no packed-refs file yet: PackRefs creates it
-		verifrt.Assume(st == verifC21Absent || st == verifC21Loose)
-		delete(c.FS.Nodes, "/packed-refs")
-		c.FS.Put("refs/tags/t", []byte(verifC21HashT.String()+"\n"))
-	}
-	k := verifrt.Range(0, verifrt.Param("K"))
-	partial := verifrt.NondetInt()
-	verifrt.Assume(partial >= 0 && partial <= 200)
+	nopacked := verifrt.Range(0, 1) == 1
+	// no packed-refs file yet: PackRefs creates it
+	verifrt.Assume(!nopacked || st == verifC21Absent || st == verifC21Loose)
+	_, oldH, oldOK := verifC21RefRepo(st)
 
 	var err error
-	crashed := verifC21Run(c, k, partial, func() {
-		err = New(c).PackRefs()
-	})
+	c, crashed, _, _ := verifC21Crash(
+		func() *verifC21FS {
+			c, _, _ := verifC21RefRepo(st)
+			if nopacked {
+				delete(c.FS.Nodes, "/packed-refs")
+				c.FS.Put("refs/tags/t", []byte(verifC21HashT.String()+"\n"))
+			}
+			return c
+		},
+		func(c *verifC21FS) { err = New(c).PackRefs() })
 	if !crashed {
-		verifrt.Assume(k == c.FS.Mutations)
 		verifrt.Reach("c21-packrefs-completed")
 		verifrt.Assert(err == nil, "c21-op-succeeds")
 		verifrt.Assert(!c.FS.Has("refs/heads/a") && !c.FS.Has("refs/heads/b"), "c21-packrefs-packs")
 	} else {
-		op := verifC21CrashOp(c)
-		if op.Name != "write" {
-			verifrt.Assume(partial == 0)
-		}
 		verifrt.Reach("c21-packrefs-crashed")
 	}
 	var allowed []plumbing.Hash
